@@ -58,6 +58,33 @@ CLAIMS.update({
         "buffers longer than stated, zlib/brotli, CFF/CFF2 DICTs and charstrings, SimpleGlyph::read_dep, post names, cmap format 2, subset/instance pipelines, "
         "Font::new. One open known finding (Fixed::neg overflow on fvar spans >= 32768.0).",
         "DESIGN.md section 6, C01", TECH_KANI),
+    "C02": (
+        "Bounded solver verdict for two primitives only - NOT for Font::shape, gsub::apply, gpos::apply or any script engine: "
+        "gsub::replace_missing_glyphs leaves every glyph id below the glyph count (or 0) and does not touch glyphs already in range (runs of 2 "
+        "and 3, all ids and counts); thorough tier: GlyphLayout::glyph_positions on a 2-glyph run with an arbitrary MarkAnchor/MarkOverprint/"
+        "CursiveAnchor index returns one position per glyph or BadIndex, never an out-of-range access. The glyph matching primitives "
+        "(find_prev/next/nth, match_back/front) are decided under C04.",
+        "Outside (almost all of the property): feature and lookup application, ligature application, syllable machines, reordering, morx, map_glyphs, "
+        "corrupt GSUB/GPOS. Seeded changes inside gsub_apply_custom and the like are not detected. Candidate for not_applicable; kept because the two "
+        "anchored mechanisms it does decide (glyph-id clamp, attachment-index validation) are named in the property.",
+        "DESIGN.md section 6, C02", TECH_KANI),
+    "C03": (
+        "Bounded solver verdict (2-safety, two-call histories against a fresh Font) for Font's own caches - NOT for the layout caches: on a Font "
+        "built by the real Font::new over a 5-table provider, lookup_glyph_index(U+25CC, probe) after ANY earlier lookup of U+25CC (presentation x "
+        "selector in {None, VS01, VS02, VS15, VS16}) equals the result on a fresh Font (three probes; this finds the GlyphCache defect listed as an "
+        "open known finding), and horizontal_advance / vertical_advance / vhea_table / has_embedded_images after any one earlier accessor call "
+        "equal the fresh font's answers for every glyph id.",
+        "Outside: LayoutCacheData (supported_features / lookups_index are std HashMaps), ReadCache, Font::shape histories, byte-identical output of "
+        "subset/instance across runs. The missing variation tuple in the lookup-list cache key is known by reading only and cannot be decided here.",
+        "DESIGN.md section 6, C03", TECH_KANI),
+    "C07": (
+        "Bounded solver verdict for the hmtx compaction step only (through hook H3 on the private subset::create_hmtx_table) - NOT for outlines: for a "
+        "source hmtx of 4 glyphs with numberOfHMetrics 1 or 2 (and 3 of 3), all bytes symbolic, and every subset [0, a, b] with a != b, each "
+        "retained glyph keeps the advance width and left side bearing HmtxTable::metric reports for its old id, including ids beyond "
+        "numberOfHMetrics whose lsb comes from the trailing array.",
+        "Outside: contours, composite closure and renumbering (GlyfTable::subset: no answer in 10 min), CFF/CFF2/Type1-to-CID, subroutines, WOFF/WOFF2 "
+        "sources, the end-to-end pipeline (40 min, no answer). Thin claim: only one of the five anchored mechanisms.",
+        "DESIGN.md section 6, C07", TECH_KANI),
     "C04": (
         "Bounded solver verdict for the matching primitives that do not pass through the layout cache - NOT for lookup application: Coverage "
         "formats 1/2 and ClassDef formats 1/2 parsed from symbolic bytes return the specified index/class for every u16 glyph; "
